@@ -5,24 +5,6 @@ From Coq Require Import List NArith Bool.
 From GS Require Import Fsm FsmTable.
 Import ListNotations.
 
-(* the documented lifecycle: New -> Booting -> Running <-> Reloading, Running -> Stopping -> Stopped *)
-Definition lifecycle_edge (a b : st) : bool :=
-  match a, b with
-  | New, Booting | Booting, Running | Running, Reloading | Reloading, Running
-  | Running, Stopping | Stopping, Stopped => true
-  | _, _ => false
-  end.
-
-(* everything else the table may contain: entering Error from any lifecycle state (or Error),
-   leaving Error towards Stopping/Stopped (shutdown of a failed runner), restarting a stopped
-   runner, and the isolated Unknown state *)
-Definition documented (a b : st) : bool :=
-  lifecycle_edge a b
-  || (st_eqb b Error && negb (st_eqb a Unknown))
-  || (st_eqb a Error && (st_eqb b Stopping || st_eqb b Stopped))
-  || (st_eqb a Stopped && st_eqb b New)
-  || (st_eqb a Unknown && st_eqb b Unknown).
-
 Lemma table_is_documented : forall a b, allowedb fsm_cfg a b = documented a b.
 Proof. intros a b; destruct a, b; vm_compute; reflexivity. Qed.
 
